@@ -373,4 +373,74 @@ mod verif_kani_wb {
         }
         std::mem::forget(allocs);
     }
+
+    // ------------------------------------------------------------------ record encoder (U5)
+    use crate::storage::format::{FormatV1, FormatV2};
+
+    // independent statement of the serialized extent: documented layout, zero padded
+    fn expected_byte(i: usize, v2: bool, key: &[u8], value: &[u8], ts: u64, expiry: u64) -> u8 {
+        let k = key.len();
+        let head = 4 + 2 + k + 8 + 8 + if v2 { 8 } else { 0 };
+        if i == 0 { return 0xCD; }
+        if i == 1 { return 0xAB; }
+        if i < 4 { return 0; } // token field, stamped later
+        if i < 6 { return (k as u16).to_le_bytes()[i - 4]; }
+        if i < 6 + k { return key[i - 6]; }
+        if i < 14 + k { return (value.len() as u64).to_le_bytes()[i - 6 - k]; }
+        if i < 22 + k { return ts.to_le_bytes()[i - 14 - k]; }
+        if v2 && i < 30 + k { return expiry.to_le_bytes()[i - 22 - k]; }
+        if i < head + value.len() { return value[i - head]; }
+        0
+    }
+
+    fn encoder_case(v2: bool) {
+        let key: [u8; 2] = kani::any();
+        let value: [u8; 3] = kani::any();
+        let ts: u64 = kani::any();
+        let expiry: u64 = kani::any();
+        let rec = Record::new(key.to_vec(), value.to_vec(), ts);
+        rec.ttl_expiry.store(expiry, Ordering::Release);
+        let io = Arc::new(RwLock::new(mk_io(1, 0, false)));
+        let format: &dyn RecordFormat = if v2 { &FormatV2 } else { &FormatV1 };
+        let data = prepare_record_data(&rec, format, &io).unwrap();
+        let head = 4 + 2 + 2 + 8 + 8 + if v2 { 8 } else { 0 };
+        assert!(format.record_header_size(2) == head && format.value_offset(2) == head && format.total_size(2, 3) == head + 3,
+            "size formulas = bytes actually emitted");
+        assert!(data.len() == FEOX_BLOCK_SIZE, "extent = total_size rounded up to whole blocks");
+        let i: usize = kani::any();
+        kani::assume(i < FEOX_BLOCK_SIZE);
+        assert!(data[i] == expected_byte(i, v2, &key, &value, ts, if v2 { expiry } else { 0 }),
+            "marker | token(0) | key_len | key | value_len | timestamp | [expiry] | value | zero padding");
+        // what the decoder and the head-identity check make of it
+        let parsed = format.parse_record(&data).unwrap();
+        assert!(parsed.0.len() == 2 && parsed.0[0] == key[0] && parsed.0[1] == key[1] && parsed.1 == 3 && parsed.2 == ts);
+        assert!(parsed.3 == if v2 { expiry } else { 0 }, "the absolute expiry survives the v2/v3 codec bit-exactly; v1 stores none");
+        assert!(sector_holds_record(&data, &rec), "the reader's identity check accepts what the writer wrote");
+        std::mem::forget(io);
+        std::mem::forget(rec);
+    }
+
+    #[kani::proof]
+    #[kani::unwind(4100)]
+    #[kani::stub(parking_lot::RawRwLock::lock_shared_slow, pl_lock_shared_slow)]
+    #[kani::stub(parking_lot::RawRwLock::lock_exclusive_slow, pl_lock_exclusive_slow)]
+    #[kani::stub(parking_lot::RawRwLock::unlock_shared_slow, pl_unlock_shared_slow)]
+    #[kani::stub(parking_lot::RawRwLock::unlock_exclusive_slow, pl_unlock_exclusive_slow)]
+    #[kani::stub(parking_lot::RawMutex::lock_slow, pl_mutex_lock_slow)]
+    #[kani::stub(parking_lot::RawMutex::unlock_slow, pl_mutex_unlock_slow)]
+    fn record_encoder_layout_v2() {
+        encoder_case(true);
+    }
+
+    #[kani::proof]
+    #[kani::unwind(4100)]
+    #[kani::stub(parking_lot::RawRwLock::lock_shared_slow, pl_lock_shared_slow)]
+    #[kani::stub(parking_lot::RawRwLock::lock_exclusive_slow, pl_lock_exclusive_slow)]
+    #[kani::stub(parking_lot::RawRwLock::unlock_shared_slow, pl_unlock_shared_slow)]
+    #[kani::stub(parking_lot::RawRwLock::unlock_exclusive_slow, pl_unlock_exclusive_slow)]
+    #[kani::stub(parking_lot::RawMutex::lock_slow, pl_mutex_lock_slow)]
+    #[kani::stub(parking_lot::RawMutex::unlock_slow, pl_mutex_unlock_slow)]
+    fn record_encoder_layout_v1() {
+        encoder_case(false);
+    }
 }
